@@ -64,6 +64,11 @@ def checksalt_expect(setting, enabled=None):
     return SALT_OK if m in STRONG else SALT_LEGACY
 
 
+# reasons for which the generic front end refuses a request before any method sees it (the object is then left
+# untouched); the other must_fail reasons are refusals by the method itself, after scratch space was handed out
+GENERIC_REJECTS = {"null", "phrase-too-long", "bad-char", "unknown-tag"}
+
+
 def must_fail(phrase, setting, enabled=None):
     """Requests that can never produce a hash (C05), independent of the
     library.  Returns a reason or None (= may succeed or fail)."""
